@@ -711,7 +711,13 @@ def build_ops():
                 from astropy.table import QTable
                 data = QTable.read(path) if len(back) else 'empty'
             return (data, back)
-        return [target], call, None, {'fmt': fmt}
+
+        def after(pool, res):
+            # a table as astropy READS it from a FITS file (bytes-valued SHAPE column) is an input class of its own for
+            # Regions.parse(table, format='fits')
+            if fmt == 'fits' and isinstance(res, tuple) and hasattr(res[0], 'colnames') and len(res[0].colnames):
+                pool.add(pool.tables, res[0])
+        return [target], call, after, {'fmt': fmt}
 
     @op('mask_ops')
     def _(pool, rng):
@@ -1430,6 +1436,15 @@ def fixed_ops_results():
                 return R.Regions.read(same)
             for fmt in ('crtf', 'fits', 'ds9'):
                 put(f'autoread:same_name:{fmt}', lambda: rewrite_read(fmt))
+
+            def fits_header():
+                from astropy.io import fits
+                R.Regions(pix_list()).write(same + '.hdr.fits', format='fits', overwrite=True)
+                with fits.open(same + '.hdr.fits') as hl:
+                    cards = sorted((k, repr(v)) for k, v in hl[1].header.items() if k not in ('DATE', 'CHECKSUM', 'DATASUM'))
+                os.remove(same + '.hdr.fits')
+                return cards
+            put('fits:default_header', fits_header)
     return out
 
 
@@ -1446,6 +1461,10 @@ def same_path_history():
             R.Regions([R.CirclePixelRegion(R.PixCoord(1.0, 2.0), 3.0)]).write(same, format='ds9', overwrite=True)
             R.Regions.read(same)
             R.Regions.read(same, format='ds9')
+            # ... and an earlier FITS write had a header of its own (nothing of it may appear in later default writes)
+            R.Regions([R.CirclePixelRegion(R.PixCoord(1.0, 2.0), 3.0)]).write(
+                same + '.hist.fits', format='fits', overwrite=True, header={'EXTNAME': 'REGION', 'OBSERVER': 'history', 'HISTKEY': 7})
+            os.remove(same + '.hist.fits')
         except Exception:
             pass
 
